@@ -33,7 +33,8 @@ ASSUMPTIONS = {
 
 LEAN_NAMES = {"cnt_store": "cnt_store", "cnt_const": "cnt_const", "cnt_range": "cnt_range", "cnt_pos": "cnt_pos", "cnt_all": "cnt_all / cnt_none",
               "cnt_congr": "cnt_congr", "sum_store": "sum_store", "sum_const": "sum_const'", "sum_le_quota": "sum_le_quota",
-              "sum_ge_quota": "sum_ge_quota", "sum_eq_quota": "sum_eq_quota", "inj_surj": "inj_surj"}
+              "sum_ge_quota": "sum_ge_quota", "sum_eq_quota": "sum_eq_quota", "inj_surj": "inj_surj", "psum_empty": "psum_empty",
+              "psum_step": "psum_step", "psum_split": "psum_split", "psum_congr": "psum_congr", "weighted_variance": "weighted_variance"}
 
 
 def load_known():
@@ -264,6 +265,15 @@ def run_check(prop, tier, seed, repo_root, write_ledger, t0):
     )
     if lean_results:
         cov["lemma_files"] = lean_results
+    pyx_files = sorted({rep.key.split("::")[0] for rep in reports if rep.key.split("::")[0].endswith(".pyx")})
+    if pyx_files:
+        from .pyxstrip import strip
+        cov["extraction"] = dict(tool="pyvc/pyxstrip.py (mechanical, re-run on every check from the current .pyx text; rules D1-D10 in its docstring)", files={})
+        for rel in pyx_files:
+            with open(os.path.join(repo_root, rel)) as f:
+                st = strip(f.read())
+            cov["extraction"]["files"][rel] = dict(dropped_or_rewritten=st.dropped, c_attributes=st.c_attrs,
+                                                   extracted_sha=hashlib.sha256(st.text.encode()).hexdigest()[:16])
     if bounded:
         cov["evaluations"] = bounded.get("evaluations", 0)
         cov["distinct_nontrivial"] = bounded.get("distinct_nontrivial", 0)
